@@ -2,19 +2,25 @@
 from props.common import *
 
 def grid_cells(text):
-    """(col,row) -> char for every non-blank character, columns counted as the grid does"""
-    out = {}
+    """((col,row) -> char for every non-blank character outside quotes, (col,row) of an opening quote -> quoted body);
+    columns counted as the grid does.  None when a row has an unbalanced quote or a backslash (not generated here)."""
+    out = {}; quoted = {}
     for y, row in enumerate(text.split('\n')):
-        x = 0
+        if row.count('"') % 2 or ('"' in row and '\\' in row): return None, None
+        x = 0; inq = None
         for ch in row:
-            if not ch.isspace() and ch != '\x00': out[(x, y)] = ch
+            if ch == '"':
+                if inq is None: inq = [x, '']
+                else: quoted[(inq[0], y)] = inq[1]; inq = None
+            elif inq is not None: inq[1] += ch
+            elif not ch.isspace() and ch != '\x00': out[(x, y)] = ch
             x += char_cols(ch)
-    return out
+    return out, quoted
 
 class C04(Prop):
     id = 'C04'
     stages = ('S1', 'S25', 'S6')
-    rule = 'rows mixing label characters (ASCII, 2-byte Latin/Cyrillic, double-width CJK, combining marks) with spaces and drawing characters, a connecting row beneath; exhaustive spacing patterns for short rows over a small alphabet, random grids otherwise (quote-, tag- and legend-free); non-trivial when the input has a character without table entry'
+    rule = 'rows mixing label characters (ASCII, 2-byte Latin/Cyrillic, double-width CJK, combining marks) with spaces and drawing characters, a connecting row beneath; exhaustive spacing patterns for short rows over a small alphabet, random grids otherwise (tag- and legend-free), and rows with quoted segments (wide characters inside) followed by labels; non-trivial when the input has a character without table entry'
     level_text = ('Theorems C04_merge_keeps_every_character_in_its_cell (a merged text occupies exactly the cells of its two parts, double-width included), C04_span_merge_keeps_text (through the whole merge loop the (cell, character) pairs shown as text are a permutation of those that entered: nothing dropped, duplicated, reordered or shifted; by the additive form of M2), C04_label_enters_in_its_cell. '
                   'Grouping/endorsement/enclosure only move fragments; that and the anchoring are decided by correspondence and oracle.')
     level_note = 'partial: from merged fragments to emitted text elements (grouping, endorsement, enclosure, anchor) by correspondence plus oracle'
@@ -35,6 +41,15 @@ class C04(Prop):
             w = rng.randint(1, 12); h = rng.randint(1, 5)
             rows = [''.join(rng.choice(alpha) for _ in range(w)) for _ in range(h)]
             out.append(self.make('grid', '\n'.join(rows)))
+        # labels on a row that also has quoted segments: the quoted text sits at its opening quote, everything else stays in its cell
+        for _ in range(150 if tier == 'quick' else 3000):
+            pieces = []
+            for _k in range(rng.randint(1, 3)):
+                pieces.append(''.join(rng.choice(gens.LABELS + gens.CJK[:4] + [' ', ' ']) for _ in range(rng.randint(0, 4))))
+                pieces.append('"' + ''.join(rng.choice(gens.LABELS + gens.CJK + gens.LATIN2 + [' ', '-', '|']) for _ in range(rng.randint(0, 4))) + '"')
+            pieces.append(''.join(rng.choice(gens.LABELS + gens.CJK[:4] + [' ']) for _ in range(rng.randint(1, 5))))
+            row = ''.join(pieces)
+            out.append(self.make('quoted-row', row + '\n' + '-' * (row_cols(row) + 1)))
         for g, t in texts(rng, tier, 300, 5000):
             t = ''.join(c for c in t if c not in '{}"\r' and not (ord(c) < 32 and c != '\n') and c not in '\x7f\x85' and not (0x80 <= ord(c) < 0xa0) and c not in '￾￿')
             if '# Legend:' in t: continue
@@ -44,9 +59,10 @@ class C04(Prop):
     def oracle(self, it):
         root, _ = root_of(it.runs['main'])
         if root is None: return []
-        cells = grid_cells(it.meta['text'])
+        cells, quoted = grid_cells(it.meta['text'])
+        if cells is None: return []
         a, u = gens.keys(); table = set(a) | set(u)
-        covered = {}; out = []
+        covered = {}; out = []; seen_q = set()
         for e in root.walk():
             if e.tag != 'text': continue
             p = e.parent; indefs = False
@@ -59,6 +75,9 @@ class C04(Prop):
             if col.denominator != 1 or row.denominator != 1:
                 out.append('text %r is not anchored at the q point of a cell: (%s,%s)' % (e.text(), e.get('x'), e.get('y'))); continue
             x = int(col); y = int(row)
+            if (x, y) in quoted:
+                if e.text() != quoted[(x, y)]: out.append('the quoted text at cell (%d,%d) is %r but its element says %r' % (x, y, quoted[(x, y)], e.text()))
+                seen_q.add((x, y)); continue
             for ch in e.text():
                 if cells.get((x, y)) != ch:
                     out.append('text %r anchored in cell (%d,%d): its character %r lies over input cell (%d,%d) which holds %r' % (e.text(), int(col), y, ch, x, y, cells.get((x, y)))); break
@@ -66,6 +85,8 @@ class C04(Prop):
                 covered[(x, y)] = ch
                 x += char_cols(ch)
             if len(out) > 3: return out
+        for (x, y), body in quoted.items():
+            if body.strip() and (x, y) not in seen_q: out.append('the quoted text %r at cell (%d,%d) is shown by no text element there' % (body, x, y))
         for (x, y), ch in cells.items():
             if ch not in table and (x, y) not in covered:
                 out.append('character %r at cell (%d,%d) has no drawing meaning but is shown by no text element' % (ch, x, y))
